@@ -2365,6 +2365,11 @@ impl DtlsTransport {
     pub fn verif_instance_id(&self) -> usize {
         Arc::as_ptr(&self.inner.state) as usize
     }
+
+    /// Presets the record sequence counter of the write side (lets the harness send across 2^32 without sending 2^32 records).
+    pub fn verif_set_write_seq(&self, seq: u64) {
+        self.inner.write_seq.store(seq, Ordering::SeqCst);
+    }
 }
 
 // ---------------------------------------------------------------------------
